@@ -59,12 +59,21 @@ def run(ctx):
             elif e["ends"] and not o["end"]:
                 bad = ("pkt:no-error", "corrupted prefix did not end the connection: %s" % i)
         else:
-            if not o["lossless"]:
+            if not o["write_ok"]:
+                bad = ("conn:write-partial", "bytes written through the connection over a stream that accepts short writes arrived altered / incomplete, or Write misreported: %s" % i)
+            elif not o["lossless"]:
                 bad = ("conn:loss-or-reorder", "bytes lost / reordered without a short-buffer report: %s -> %s" % (i, o))
             elif not o["end"]:
                 bad = ("conn:no-eof", "ended connection did not report an error: %s" % i)
         if bad:
             ctx.violation(bad[0], bad[1], {"case": c, "observed": o})
+    if prop == "C07":
+        ctx.evaluations += tail.get("two_peer_streams", 0)
+        ctx.cov["two_peer_dispatch_streams"] = tail.get("two_peer_streams", 0)
+        if not tail.get("two_peer_streams"):
+            raise vlib.Infra("framing driver: the two-peer dispatch rounds did not run")
+        if tail["two_peer_bad"]:
+            ctx.violation("hdr:dispatch-wrong-peer", "%d of %d streams with the same protocol id arriving from two different remote peers in quick succession were handed to a handler looked up for the other peer" % (tail["two_peer_bad"], tail["two_peer_streams"]), tail)
     if prop == "C08":
         ctx.evaluations += tail["frames"]
         if tail["bad"]:
